@@ -79,8 +79,14 @@ def secrets(seed, k):
 # ALL-ZERO: a legal value of a secret argument that random sampling never produces (slot numbers are SEC[] indices of ct_runner.c)
 AUXZERO = {"schnorrsig_sign": [1], "adaptor_encrypt": [1], "s2c_sign": [1], "anti_exfil_host_commit": [1], "anti_exfil_signer_commit": [1],
            "musig_nonce_gen": [2]}
+BLIND_IDX = 99      # run index of the assignment "as assignment 0, but another (secret) context-randomization seed" (variants with bit 3)
 def runs_of(api, k): return k + 1 if api in AUXZERO else k
+def run_indices(api, var, k):
+    return list(range(runs_of(api, k))) + ([BLIND_IDX] if (var & 8) else [])
 def secret_for(api, i, secs):
+    if i == BLIND_IDX:
+        b = bytearray(secs[0]); b[32 * 3: 32 * 4] = hashlib.sha256(b"another seed" + bytes(secs[0][96:128])).digest()
+        return bytes(b)
     if i < len(secs): return secs[i]
     b = bytearray(secs[1])
     for slot in AUXZERO[api]: b[32 * slot: 32 * slot + 32] = bytes(32)
@@ -105,6 +111,8 @@ def one_run(args):
     ms.sort()
     # comparison key: the public variant and a digest of the public ARGUMENTS of the call
     evs = [{"e": "Call", "api": api, "pub": [var] + list(hashlib.sha256(bytes(side.get("pubin", []))).digest()[:8])}]
+    if (var & 8) and idx in (0, BLIND_IDX):
+        evs[0]["grp"] = 1      # these two runs differ only in the secret randomization seed: their declassified values must coincide too
     start = None; di = 0; nlines = 0
     for pos, tag, end in ms:
         if tag == "B": start = end; continue
@@ -192,7 +200,7 @@ def run(chk):
         exe, marks, d = build_runner(chk, variant)
         # quick tier: the alternative limb configuration is recorded for the signing family only (scalar inverse, ecmult_gen, field code)
         vapis = [a for a in apis if a in ("ecdsa_sign", "schnorrsig_sign", "adaptor_encrypt", "ecdh", "seckey_tweak_mul")] if (quick and variant != "std") else apis
-        jobs = [(exe, marks, d, api, var, i, secret_for(api, i, secs)) for api in vapis for var in (APIS[api][:2] if quick else APIS[api]) for i in range(runs_of(api, k))]
+        jobs = [(exe, marks, d, api, var, i, secret_for(api, i, secs)) for api in vapis for var in (APIS[api][:2] if quick else APIS[api]) for i in run_indices(api, var, k)]
         with cf.ThreadPoolExecutor(max_workers=16) as ex:
             results = list(ex.map(one_run, jobs))
         # TLC validation (a rejection is reported only if it repeats after re-recording the offending API's runs)
@@ -231,16 +239,21 @@ def run(chk):
             if grp not in rerecorded:
                 # record that API's runs again: only a divergence that repeats is a violation
                 rerecorded.add(grp)
-                jobs2 = [(exe, marks, d, grp[0], grp[1], i, secret_for(grp[0], i, secs)) for i in range(runs_of(grp[0], k))]
+                jobs2 = [(exe, marks, d, grp[0], grp[1], i, secret_for(grp[0], i, secs)) for i in run_indices(grp[0], grp[1], k)]
                 with cf.ThreadPoolExecutor(max_workers=16) as ex:
                     res2 = list(ex.map(one_run, jobs2))
                 if any(x[3] is None for x in res2): raise Infra("re-recording failed for %s" % (grp,))
                 by_group[grp] = [x[3] for x in res2]
                 chk.notes.append("%s: rejection for %s re-recorded once" % (variant, grp))
                 continue
-            chk.violation("control flow / memory addresses of %s (public variant %s, build %s) differ between two runs that agree on all public inputs and on "
-                          "everything declassified so far: secret-dependent branch or address (first divergent segment at event %d; repeated after re-recording)" % (call["api"], call["pub"], variant, lo + 1),
-                          events[j:lo + 1], variant)
+            if lo < len(events) and events[lo]["e"] == "Declassify":
+                chk.violation("%s (public variant %s, build %s): a DECLASSIFIED value differs between two runs that differ only in the secret context-randomization seed -- "
+                              "the library declassifies data derived from that secret (event %d; repeated after re-recording)" % (call["api"], call["pub"], variant, lo + 1),
+                              events[j:lo + 1], variant)
+            else:
+                chk.violation("control flow / memory addresses of %s (public variant %s, build %s) differ between two runs that agree on all public inputs and on "
+                              "everything declassified so far: secret-dependent branch or address (first divergent segment at event %d; repeated after re-recording)" % (call["api"], call["pub"], variant, lo + 1),
+                              events[j:lo + 1], variant)
             del by_group[grp]          # keep checking the other APIs
             if not by_group: break
     # ---- definedness tracking (the maintainers' discipline, src/ctime_tests.c) as a second observation of the same runs ----
